@@ -129,3 +129,26 @@ UNITS.append(Unit(
     replay=dict(prog='twolevel_jump_back', args=[], lib=False),
     says='jump_backward (operator-= on a random-access two-level iterator): lands exactly n positions earlier in the flattened sequence, across any number of (possibly empty) inner containers -- exhaustive over the model of the nested structure (complete unwinding)'))
 UNITS.append(Unit(name='TLA_decrement_nc', kind='assumed', src=TLA, within=W, anchor=r'void decrement\(\)', proto='void TLA_decrement_nc(struct TLI* self)', contract='', lower=TL_COMMON))
+
+UNITS.append(Unit(
+    name='TLA_jump_forward', kind='bounded', unwind=16, dfcc=False, bound_desc='the small model of the nested structure (<= 4 inner containers of <= 3 elements, n <= 12): every loop unwound completely, all structures, positions and distances',
+    src=TLA, within=W, anchor=r'void jump_forward\(DiffType n\)', proto='void TLA_jump_forward(struct TLI* self, int64_t n)', contract='',
+    defines=['MAXO=4u', 'MAXLEN=3u'], prelude=TP + [FLATP.replace(' + ((o) > 4 ? LEN[4] : 0) + ((o) > 5 ? LEN[5] : 0)', ''), 'unsigned nondet_unsigned(void); uint64_t nondet_u64(void); int64_t nondet_i64(void);\nvoid TLA_jump_forward(struct TLI* self, int64_t n);\nvoid TLA_seek_forward(struct TLI* self);\nstatic inline int64_t gv_min_i64b(int64_t a, int64_t b) { return a < b ? a : b; }\n'],
+    lower=TL_COMMON + [rx(r'assert\(n >= 0\);', '__CPROVER_assert(n >= 0, "code-assert: n >= 0");', 1, 1),
+                       rx(r'difference_type k =\s*std::distance\(self->inner, inner_end\(self->outer\)\);', 'int64_t k = (int64_t)(inner_end(self->outer) - self->inner);', 1, 1),
+                       rx(r'difference_type m = std::min\(k, n\);', 'int64_t m = gv_min_i64b(k, n);', 1, 1), rx(r'std::advance\(self->inner, m\);', 'self->inner += (Iter)m;', 1, 1)],
+    inline=['TLA_seek_forward'],
+    harness="""
+  NO = nondet_unsigned(); __CPROVER_assume(NO <= MAXO);
+  for (unsigned q = 0; q < MAXO; ++q) { LEN[q] = nondet_unsigned(); __CPROVER_assume(LEN[q] <= MAXLEN); }
+  struct TLI it; it.outer = nondet_u64(); it.inner = nondet_u64();
+  __CPROVER_assume(CANON(&it) && (it.outer == NO ==> it.inner <= MAXLEN));
+  const uint64_t total = PRE(NO);
+  int64_t n = nondet_i64(); __CPROVER_assume(n >= 0 && FLAT(&it) + (uint64_t)n <= total && (it.outer == NO ==> n == 0));
+  const uint64_t f0 = FLAT(&it); const struct TLI old = it;
+  TLA_jump_forward(&it, n);
+  if (n == 0) __CPROVER_assert(it.outer == old.outer && it.inner == old.inner, "it += 0 moves nothing");
+  else { __CPROVER_assert(CANON(&it), "it += n lands on an element or on the end"); __CPROVER_assert(FLAT(&it) == f0 + (uint64_t)n, "it += n lands exactly n positions later in the flattened sequence"); }
+""",
+    reach=True, no_flags=['--conversion-check'], timeout=1800, reach_timeout=600, inst='random-access inner iterators',
+    says='jump_forward (operator+= on a random-access two-level iterator): lands exactly n positions later in the flattened sequence (or on the end), across any number of possibly empty inner containers -- exhaustive over the small model'))
